@@ -78,7 +78,8 @@ func faultOpts(prop string, thorough bool) (GenOpts, faultEmphasis) {
 	case "C04":
 		em.ConnPhase = 8
 		em.FreshChance = 0
-		o.MaxFiles = 3 // (two rotations: a file can be entered and left without a transaction in it)
+		o.MaxFiles = 3      // (two rotations: a file can be entered and left without a transaction in it)
+		o.BigOffsets = true // one history in four: an old file whose offsets lie near 2^24, 2^31 or 2^32 (seed C04-x)
 		o.UnitWeights[uRotate] = 2
 	case "C05":
 		em.ConnPhase = 4
@@ -212,6 +213,9 @@ func collectStats(res *CaseResult, r *Run) {
 	st.Steps += r.steps
 	if st.Faults == nil {
 		st.Faults = map[string]int{}
+	}
+	if r.sc != nil && r.sc.Hist != nil && r.sc.Hist.carried > 0 {
+		st.probe("rows-decoded-with-a-table-map-of-an-earlier-statement")
 	}
 	for _, a := range r.Results {
 		st.Attempts++
